@@ -5,6 +5,7 @@
 //   op init    g stream cancel_at allocfail_at
 //   op shoot   g stream slot cancel_at allocfail_at s1_at s1_kind s2_at s2_kind s3_at s3_kind
 //   op reinit  g stream                                            (reset(); same setters; initialize)
+//   op recfg   g cat level mode emin_keV emax_keV mdl ; nuclide     (new setters on the SAME object: after a rejected initialise, or after reset())
 //   op destroy g               | dump g (smart_dump and read-only accessors between shots)
 //   op fresh   slot            | prefill slot n | reserve slot n | shrink slot | copy from to
 //
@@ -101,12 +102,38 @@ const Canon & canonical(const GenCfg & cfg, const Op & shoot)
   if (it != cache.end()) return it->second;
   if (cache.size() > 20000) cache.clear();
   Canon c;
+  // Configurations whose initialise runs hundreds of quadratures (10-50 ms) use a pooled reference
+  // instance (initialised once per process, shooting each requested stream into a fresh event) instead
+  // of a brand-new instance per comparison. If the property holds this changes nothing; if it does not,
+  // the reference has a *different* history than the instance under test, which is all the oracle needs.
+  bool expensive = false;
+  if (cfg.cat == 1 && cfg.mode < 21) for (auto & e : dbd_catalogue()) if (e.nuc == cfg.nuc && e.level == cfg.level && e.mode == cfg.mode) { expensive = e.qng_calls > 0; break; }
+  static std::map<std::string, std::unique_ptr<bxdecay0::decay0_generator>> pool;
+  static std::map<std::string, std::string> pool_err;
   try {
-    bxdecay0::decay0_generator g;
-    apply_cfg(g, cfg);
-    SimRandom ri(hmix(hstr("canon-init"), hstr(cfg.key())));
-    ri.begin_op(INIT_BUDGET);
-    g.initialize(ri);
+    std::unique_ptr<bxdecay0::decay0_generator> own;
+    bxdecay0::decay0_generator * gp = nullptr;
+    if (expensive) {
+      auto pi = pool.find(cfg.key());
+      if (pi == pool.end()) {
+        if (pool.size() > 48) { pool.clear(); pool_err.clear(); }
+        std::unique_ptr<bxdecay0::decay0_generator> ng(new bxdecay0::decay0_generator);
+        apply_cfg(*ng, cfg);
+        SimRandom ri(hmix(hstr("canon-init"), hstr(cfg.key())));
+        ri.begin_op(INIT_BUDGET);
+        ng->initialize(ri);
+        pi = pool.emplace(cfg.key(), std::move(ng)).first;
+      }
+      gp = pi->second.get();
+    } else {
+      own.reset(new bxdecay0::decay0_generator);
+      apply_cfg(*own, cfg);
+      SimRandom ri(hmix(hstr("canon-init"), hstr(cfg.key())));
+      ri.begin_op(INIT_BUDGET);
+      own->initialize(ri);
+      gp = own.get();
+    }
+    bxdecay0::decay0_generator & g = *gp;
     c.init_ok = true;
     c.toall = dbits(g.get_to_all_events());
     SimRandom rs(shot_key(shoot.arg(1)));
@@ -175,6 +202,25 @@ Outcome run_gen(const Plan & plan, const RunCtx & ctx)
       try { apply_cfg(*I.gen, I.cfg); I.has_cfg = true; }
       catch (std::exception & e) { tr.adds("cfg-throw"); out.ctr["cfg_rejected"]++; }
       tr.adds("cfg"); tr.adds(I.cfg.key());
+    } else if (op.k == "recfg") {
+      // re-configure the SAME object (after a rejected initialise, or after reset() if it is initialised)
+      if (!I.gen) { out.ctr["ops_skipped"]++; continue; }
+      int registered = I.gen->get_operations().empty() ? 0 : I.cfg.mdl; // an un-initialised generator keeps its registered operation
+      if (I.inited) { I.gen->reset(); I.inited = false; registered = 0; }
+      I.cfg = cfg_of(op); I.has_cfg = false; I.shots = 0;
+      try {
+        // operations cannot be unregistered: the effective configuration keeps the one already there
+        GenCfg c2 = I.cfg;
+        if (registered != 0) { I.cfg.mdl = registered; c2.mdl = 0; }
+        apply_cfg(*I.gen, c2);
+        // make the object's public configuration exactly the one the canonical instance gets
+        if (I.cfg.cat == 2 || (I.cfg.emin_keV < 0 && I.cfg.emax_keV < 0)) I.gen->set_decay_dbd_esum_range(NAN, NAN);
+        if (I.cfg.cat == 2) { I.gen->set_decay_dbd_level(bxdecay0::decay0_generator::DBD_LEVEL_INVALID); I.gen->set_decay_dbd_mode(bxdecay0::DBDMODE_UNDEF); }
+        I.has_cfg = I.gen->get_operations().size() == (I.cfg.mdl ? 1u : 0u);
+      } catch (std::exception &) { out.ctr["cfg_rejected"]++; }
+      if (I.last.rfind("init-re", 0) == 0 || I.last == "init-faulted") out.ctr["probe_reconfigured_after_failed_initialize"]++;
+      I.last = "recfg-after-" + I.last;
+      tr.adds("recfg"); tr.adds(I.cfg.key());
     } else if (op.k == "init") {
       if (!I.gen || !I.has_cfg || I.inited) { out.ctr["ops_skipped"]++; continue; }
       SimRandom r(init_key(op.arg(1)));
@@ -375,7 +421,9 @@ GenCfg pick_cfg(Rng & r, bool cheap_only)
   else if (d < 50) { c.cat = 2; c.nuc = r.pick(cascades); }
   else if (d < 56) { c.cat = 1; c.nuc = GEN_GA_NUC[r.below(4)]; c.level = 0; c.mode = (int)r.range(21, 24); return c; } // gA process (dataset may be absent: refused)
   else {
-    const auto & cat = cheap_only ? dbd_cheap() : dbd_catalogue();
+    // quadrature-based modes (5,6,8,13..16,19: per-instance spectrum tables) appear in every tier; the
+    // heaviest ones (thousands of quadratures) only in the thorough tier
+    const auto & cat = cheap_only ? (r.chance(0.25) && !dbd_quad().empty() ? dbd_quad() : dbd_cheap()) : dbd_catalogue();
     if (cat.empty()) { c.cat = 2; c.nuc = "Co60"; return c; }
     const DbdEntry * e = &r.pick(cat);
     // favour excited daughter levels (de-excitation cascades, *low.cc files)
@@ -480,6 +528,24 @@ Plan gen_hist(u64 seed, u64 idx, const RunCtx & ctx)
     else if (d < 82) { Op o; o.k = "copy"; o.a = {(i64)r.below(NS), (i64)r.below(NS)}; p.ops.push_back(o); }
     else if (d < 87) { Op o; o.k = "reinit"; o.a = {g, (i64)r.below(1000)}; p.ops.push_back(o); }
     else if (d < 89) { Op o; o.k = "dump"; o.a = {g}; p.ops.push_back(o); }
+    else if (d < 92) {
+      // a rejected initialise on the same object, then the real configuration: level out of range,
+      // a mode the transition does not allow, or an inverted window - often with a window that must not survive
+      GenCfg good = cfgs[(size_t)g], bad = pick_cfg(r, cheap);
+      if (bad.cat == 1) {
+        u64 k = r.below(3);
+        if (k == 0) bad.level = 15;
+        else if (k == 1) bad.mode = (int)r.pick(std::vector<i64>{4, 5, 8, 13, 15, 16, 19, 7, 3});
+        else { bad.emin_keV = 3000; bad.emax_keV = 1000; }
+        if (mode_supports_window(bad.mode) && bad.emin_keV < 0 && bad.emax_keV < 0) { bad.emin_keV = r.range(100, 900); bad.emax_keV = bad.emin_keV + r.range(300, 1500); }
+      } else bad.nuc = "Xx999";
+      Op b = op_cfg(g, bad); b.k = "recfg"; p.ops.push_back(b);
+      Op in; in.k = "init"; in.a = {g, (i64)r.below(1000), -1, -1}; p.ops.push_back(in);
+      if (r.chance(0.5)) good = pick_cfg(r, cheap);
+      cfgs[(size_t)g] = good;
+      Op gd = op_cfg(g, good); gd.k = "recfg"; p.ops.push_back(gd);
+      in.a[1] = (i64)r.below(1000); p.ops.push_back(in);
+    }
     else if (d < 95) {
       // replace the instance: destroy, construct, configure (same or another configuration), initialise
       if (r.chance(0.5)) cfgs[(size_t)g] = pick_cfg(r, cheap);
@@ -552,7 +618,7 @@ std::vector<Op> simplify_gen(const Op & op)
   } else if (op.k == "init") {
     if (op.arg(2, -1) >= 0) { Op c = op; c.a[2] = -1; v.push_back(c); }
     if (op.arg(3, -1) >= 0) { Op c = op; c.a[3] = -1; v.push_back(c); }
-  } else if (op.k == "cfg") {
+  } else if (op.k == "cfg" || op.k == "recfg") {
     if (op.arg(6) != 0) { Op c = op; c.a[6] = 0; v.push_back(c); }
     if (op.arg(4, -1) >= 0 || op.arg(5, -1) >= 0) { Op c = op; c.a[4] = -1; c.a[5] = -1; v.push_back(c); }
   } else if (op.k == "prefill" || op.k == "reserve") {
